@@ -25,6 +25,7 @@
 import EvalFilter.Model.Api
 import EvalFilter.Proofs.CompJumps
 import EvalFilter.Proofs.ExprCorrect
+import EvalFilter.Proofs.StmtCorrect
 
 set_option linter.unusedSimpArgs false
 
@@ -251,5 +252,61 @@ theorem C02_ternary_correct (c t f : Expr) (base : Nat) (cst : CState) (r : List
     (M : Machine) (obj : HostVal) (code : Bytes) (ctx : Ctx M code) (hat : CodeAt code base r.1)
     (hpool : ∃ ex, M.consts = r.2.consts ++ ex) : Correct M obj code (.ternary c t f) base :=
   expr_ok _ base cst r hp hc M obj code ctx hat hpool
+
+/-! ### statements, end to end -/
+
+open EvalFilter.Exec in
+/-- **Assignments, if / else-if / else, while and return run exactly as the language defines.**  For every
+    script built from these over value-producing expressions (any size and nesting), compiled without the
+    optimizer, for every host object, environment and host-function table: the run ends with exactly the
+    outcome of the big-step semantics `execSs` - the statements the language selects, in order, a loop
+    body once per turn while its condition is truthy; `return` ends the script at once with its value;
+    running off the end yields null; the first error ends the run - with the result, the output and the
+    variables the semantics prescribes. -/
+theorem C02_program_correct (prog : Program) (hp : pureSs prog = true) (hne : prog ≠ []) (c : Compiled)
+    (hc : compileProgram prog = .ok c) (fns : List (Str × FnImpl)) (obj : HostVal) (env : Env) (out : Str)
+    (polls depth f : Nat)
+    (hnd : execSs (Api.newMachine c false fns (fun _ => false)) obj f prog env out ≠ .diverged) :
+    ∃ n k, ∀ fuel, ∃ st',
+      run (Api.newMachine c false fns (fun _ => false)) obj (fuel + n) ⟨env, out, polls, depth⟩ = st' ∧
+      (match programResult (polls + k) depth (execSs (Api.newMachine c false fns (fun _ => false)) obj f prog env out) with
+       | some (r, s) => st'.1 = r ∧ st'.2.out = s.out ∧ st'.2.env.globals = s.env.globals ∧ st'.2.polls = s.polls
+       | none => True) :=
+  program_correct prog hp hne c hc fns obj env out polls depth f hnd
+
+open EvalFilter.Exec in
+/-- what the semantics says, spelled out for a block: statements run one after the other while each
+    falls through; anything else (return, error) ends the block with that outcome -/
+theorem C02_block_semantics (M : Machine) (obj : HostVal) (f : Nat) (s : Stmt) (ss : List Stmt) (env : Env) (out : Str) :
+    execSs M obj (f + 1) (s :: ss) env out =
+      (match execS M obj f s env out with
+       | .normal env' o' => execSs M obj f ss env' o'
+       | other => other) := by
+  simp only [execSs]
+  cases execS M obj f s env out <;> rfl
+
+open EvalFilter.Exec in
+/-- … and for a loop: the condition is evaluated; if truthy the body runs once and the loop starts
+    again with the variables the body left, otherwise the loop is over -/
+theorem C02_while_semantics (M : Machine) (obj : HostVal) (f : Nat) (c : Expr) (body : List Stmt) (env : Env) (out : Str) :
+    execE M obj (f + 1) (.whileE c body) env out =
+      (match evalE M obj env c out with
+       | (.error e, o) => .failed e env o
+       | (.ok cv, o) =>
+         if cv.truthy then
+           match execSs M obj f body env o with
+           | .normal env' o' => execE M obj f (.whileE c body) env' o'
+           | other => other
+         else .normal env o) := by
+  simp only [execE]
+  cases evalE M obj env c out with
+  | mk res o =>
+    cases res with
+    | error e => rfl
+    | ok cv =>
+      by_cases h : cv.truthy = true
+      · simp only [h, ↓reduceIte]
+        cases execSs M obj f body env o <;> rfl
+      · simp only [h, Bool.false_eq_true, ↓reduceIte]
 
 end EvalFilter.Props.C02
